@@ -1,6 +1,7 @@
 package otto
 
 import (
+	"sort"
 	"strconv"
 )
 
@@ -97,6 +98,30 @@ func arrayDefineOwnProperty(obj *object, name string, descriptor property, throw
 		}
 		if !objectDefineOwnProperty(obj, name, descriptor, throw) {
 			return false
+		}
+		// ES5 15.4.5.1 step 3.l deletes every index from the old length down to the new one. Only
+		// indices that exist can refuse deletion, so when the gap is larger than the number of own
+		// properties the loop visits just those (highest first): a.length = 4294967295; a.length = 0
+		// no longer spends minutes in native code that no interrupt can reach.
+		if uint64(length-newLength) > uint64(len(obj.propertyOrder)) {
+			present := make([]uint32, 0, len(obj.propertyOrder))
+			for _, key := range obj.propertyOrder {
+				if index := stringToArrayIndex(key); index >= int64(newLength) && index < int64(length) {
+					present = append(present, uint32(index))
+				}
+			}
+			sort.Slice(present, func(i, j int) bool { return present[i] > present[j] })
+			for _, index := range present {
+				if !obj.delete(strconv.FormatInt(int64(index), 10), false) {
+					descriptor.value = uint32Value(index + 1)
+					if !newWritable {
+						descriptor.mode &= 0o077
+					}
+					objectDefineOwnProperty(obj, name, descriptor, false)
+					return reject("delete failed")
+				}
+			}
+			length = newLength
 		}
 		for newLength < length {
 			length--
